@@ -42,6 +42,10 @@ type Net struct {
 	R      *simcore.Run
 
 	Stats map[string]*AddrStats
+	// EOFWithData: a Read that takes the last delivered bytes of a stream whose FIN has already been delivered
+	// returns them together with io.EOF (legal for an io.Reader, and what crypto/tls does when the last record and
+	// close_notify arrive together).
+	EOFWithData bool
 	// DialLog records the parameters of every dial made through DialFunc (fabio's own dials).
 	DialLog []DialRecord
 }
@@ -255,6 +259,9 @@ func (c *Conn) Read(b []byte) (int, error) {
 			c.in.ready = c.in.ready[k:]
 			c.in.read += int64(k)
 			n.cond.Broadcast()
+			if n.EOFWithData && len(c.in.ready) == 0 && c.in.finDelivered && !c.in.reset {
+				return k, io.EOF
+			}
 			return k, nil
 		}
 		if c.in.reset {
